@@ -949,6 +949,7 @@ def c06(tier, rng, fam='C06'):
     # are answered with at most a reset: nothing follows a stream's trailer, no second handler runs
     out += late_messages(fam)
     out += unencodable_send(fam)
+    out += unencodable_elsewhere(fam)
     out += random_programs(fam, 150 if tier == 'quick' else 3000, rng)
     return out
 
@@ -1096,7 +1097,8 @@ def c04(tier, rng, fam='C04'):
             way = rng.choice(['sendhdr', 'firstmsg', 'trailer'])
             code = rng.choice([0, 0, 7])
             b = B(fam, '%s random metadata #%d headers via %s code=%d' % (kind, r_, way, code), ser=bool(r_ % 2))
-            hp = [dict(o='sethdr', md=h1)]
+            via = {'via': 'ctx'} if (kind != 'unary' and r_ % 3 == 0) else {}     # grpc.SetHeader(ctx, ...) & co. in a stream handler
+            hp = [dict(o='sethdr', md=h1, **via)]
             if kind == 'unary':
                 hp += [dict(o='sendhdr' if way == 'sendhdr' else 'sethdr', md=h2), dict(o='settrl', md=t1), dict(o='settrl', md=t2),
                        ret(code=code, msg='denied' if code else '', pay='rep')]
@@ -1104,12 +1106,12 @@ def c04(tier, rng, fam='C04'):
             else:
                 hp = [dict(o='drain')] + hp
                 if way == 'sendhdr':
-                    hp += [dict(o='sendhdr', md=h2), dict(o='send', pay='m0')]
+                    hp += [dict(o='sendhdr', md=h2, **via), dict(o='send', pay='m0')]
                 elif way == 'firstmsg':
-                    hp += [dict(o='sethdr', md=h2), dict(o='send', pay='m0')]
+                    hp += [dict(o='sethdr', md=h2, **via), dict(o='send', pay='m0')]
                 else:
-                    hp += [dict(o='sethdr', md=h2)]
-                hp += [dict(o='settrl', md=t1), dict(o='settrl', md=t2), ret(code=code, msg='denied' if code else '')]
+                    hp += [dict(o='sethdr', md=h2, **via)]
+                hp += [dict(o='settrl', md=t1, **via), dict(o='settrl', md=t2), ret(code=code, msg='denied' if code else '')]
                 b.step('sopen', c=1, kind=kind, md=req, hp=hp)
                 b.step('send', c=1, pay='x').step('close', c=1).step('hdr', c=1).step('recv', c=1, n=2).step('trl', c=1)
             out.append(b.q().done())
@@ -1602,5 +1604,29 @@ def concurrent_header_and_send(fam, reps):
                 b.step('recv', c=1, n=2)
                 b.step('close', c=1)
                 b.step('recv', c=1)
+                out.append(b.q().done())
+    return out
+
+
+def unencodable_elsewhere(fam):
+    """the codec refuses a message in the other places a user can hand one in: the request of a unary call (fails
+    locally, nothing is written, the connection serves the next call) and a handler's Send (fails, nothing is written
+    for it, the stream goes on and ends normally)"""
+    out = []
+    for ser in (True, False):
+        b = B(fam, 'unary call with an unencodable request (%s)' % ('serialising' if ser else 'by reference'), ser=ser)
+        b.step('ucall', c=1, pay='warm', hp=[ret(pay='up')])
+        b.step('ucall', c=2, what='bad', hp=[])
+        b.step('ucall', c=3, what='bad', to=1000, hp=[])
+        b.step('ucall', c=4, pay='after', hp=[ret(pay='fine')])
+        out.append(b.q().done())
+        for kind in ('bidi', 'ss'):
+            for pos in (0, 1, 2):
+                sends = [dict(o='send', pay='h%d' % i) for i in range(2)]
+                hp = [dict(o='recv')] + sends[:pos] + [dict(o='sendbad')] + sends[pos:] + [dict(o='drain'), ret()]
+                b = B(fam, '%s handler sends an unencodable message at position %d (%s)' % (kind, pos, 'serialising' if ser else 'by reference'), ser=ser)
+                b.step('sopen', c=1, kind=kind, hp=hp)
+                b.step('send', c=1, pay='go').step('close', c=1).step('recv', c=1, n=3)
+                b.step('ucall', c=2, pay='probe', hp=[ret(pay='fine')])
                 out.append(b.q().done())
     return out
